@@ -53,8 +53,8 @@ EXPECTED_PROBES = ["year_pivot_boundary_hit", "reparse_other_config",
                    "year_below_100", "input.bytes", "input.stream"]
 
 CLASSES = {
-    "config":  dict(quick=3000, thorough=100000, timeout=60),
-    "threads": dict(quick=800, thorough=20000, timeout=60),
+    "config":  dict(quick=12000, thorough=100000, timeout=60),
+    "threads": dict(quick=3000, thorough=20000, timeout=60),
 }
 
 TZ_SETTINGS = [None, "UTC", "EST5EDT", "CET-1CEST", "NZST-12NZDT",
